@@ -106,12 +106,19 @@ func (a Bool) M__eq__(other Object) (Object, error) {
 	if b, ok := convertToBool(other); ok {
 		return NewBool(a == b), nil
 	}
+	if _, isComplex := other.(Complex); isComplex {
+		// let the complex number do the comparison
+		return NotImplemented, nil
+	}
 	return False, nil
 }
 
 func (a Bool) M__ne__(other Object) (Object, error) {
 	if b, ok := convertToBool(other); ok {
 		return NewBool(a != b), nil
+	}
+	if _, isComplex := other.(Complex); isComplex {
+		return NotImplemented, nil
 	}
 	return True, nil
 }
